@@ -1973,3 +1973,36 @@ mod tests {
     assert!(reader.matched_writer(writer_guid).is_none());
   }
 }
+
+// Verification accessors (see /verif/DESIGN.md). Compiled only with `--cfg rustdds_verif`.
+#[cfg(rustdds_verif)]
+impl Reader {
+  pub(crate) fn verif_writer_proxy(&self, writer_guid: GUID) -> Option<&RtpsWriterProxy> {
+    self.matched_writers.get(&writer_guid)
+  }
+
+  pub(crate) fn verif_matched_writers(&self) -> Vec<GUID> {
+    self.matched_writers.keys().copied().collect()
+  }
+
+  /// partially received samples of a writer: (sequence number, missing fragments)
+  pub(crate) fn verif_partial_samples(
+    &self,
+    writer_guid: GUID,
+    candidates: &[SequenceNumber],
+  ) -> Vec<(SequenceNumber, Vec<FragmentNumber>)> {
+    candidates
+      .iter()
+      .filter(|sn| self.is_frag_partially_received(writer_guid, **sn))
+      .map(|sn| (*sn, self.missing_frags_for(writer_guid, *sn).collect()))
+      .collect()
+  }
+
+  pub(crate) fn verif_match_counts(&self) -> (i32, i32, i32) {
+    (
+      self.matched_writers.len() as i32,
+      self.writer_match_count_total,
+      self.offered_incompatible_qos_count,
+    )
+  }
+}
